@@ -781,7 +781,7 @@ class PatternV:
         self.pattern = pattern
 
 
-BUILTINS = {"next", "iter", "reversed", "print", "input", "id", "setattr", "hasattr", "getattr", "callable", "round", "abs", "super", "map", "filter", "str", "int", "len", "isinstance", "bool", "list", "tuple", "enumerate", "zip", "all", "any", "float", "repr", "type", "dict", "set", "range", "sorted", "min", "max"}
+BUILTINS = {"object", "next", "iter", "reversed", "print", "input", "id", "setattr", "hasattr", "getattr", "callable", "round", "abs", "super", "map", "filter", "str", "int", "len", "isinstance", "bool", "list", "tuple", "enumerate", "zip", "all", "any", "float", "repr", "type", "dict", "set", "range", "sorted", "min", "max"}
 
 
 def decorators(fn):
@@ -798,6 +798,7 @@ class Ev:
         self.syms = {}  # name -> Sym, for atoms used as dictionary keys
         self.ids = {}  # python id -> IdV, for id(x) used as dictionary keys
         self.input_reply = None  # what input() answers (Str), when the evaluated code may ask the user
+        self.module_cache = {}
         self.ctor_models = {}  # class name -> python function(args, kwargs) giving the model of the constructed object
         self.model_calls = {}  # dotted name of an outside callable -> python function(args, kwargs) modelling it
         self.assume_valid = True  # argument validators (commonroad.common.validity.is_*) hold for the symbolic inputs
@@ -1007,7 +1008,7 @@ class Ev:
         if name in mod.functions:
             return FuncV(mod.functions[name], mod=mod)
         if name in mod.assigns:
-            return self.ev(mod.assigns[name], {"__mod__": mod}, mod)
+            return self.module_value(mod, name)
         if name in mod.imports:
             m, orig = mod.imports[name]
             if orig is None:
@@ -1024,7 +1025,7 @@ class Ev:
                 if orig in m2.functions:
                     return FuncV(m2.functions[orig], mod=m2)
                 if orig in m2.assigns:
-                    return self.ev(m2.assigns[orig], {"__mod__": m2}, m2)
+                    return self.module_value(m2, orig)
             return ModRef(m + "." + orig)
         if name in BUILTINS:
             return Builtin(name)
@@ -1795,6 +1796,8 @@ class Ev:
             raise Undecided("%s(%r)" % (name, items))
         if name in ("round", "abs", "min", "max") and args and all(isinstance(a, (int, float)) for a in args):
             return {"round": round, "abs": abs, "min": min, "max": max}[name](*args)
+        if name == "object" and not args and not kwargs:
+            return Obj(None, {}, closed=True, label="object()")  # a fresh sentinel: equal to itself only
         if name == "type" and len(args) == 1:
             if isinstance(args[0], Obj) and args[0].cls is not None:
                 return ClassRef(args[0].cls)
@@ -2145,6 +2148,17 @@ class Ev:
             if isinstance(s, Str) and len(pattern) == 1 and pattern not in ".^$*+?{}[]\\|()":
                 return str_split(s, pattern)
         raise AnalysisError("regex operation %s at line %d is not modelled" % (op, e.lineno))
+
+    def module_value(self, mod, name):
+        """value of a module-level name; a call at module level (a sentinel object, a compiled pattern, a record) is
+        made once, as at import time, so that the name denotes one object"""
+        e = mod.assigns[name]
+        if not isinstance(e, ast.Call):
+            return self.ev(e, {"__mod__": mod}, mod)
+        key = (mod.rel, name)
+        if key not in self.module_cache:
+            self.module_cache[key] = self.ev(e, {"__mod__": mod}, mod)
+        return self.module_cache[key]
 
     def outside_value(self, v):
         """a value made by an uninterpreted pure module (numpy array expression, shapely geometry, ...)"""
